@@ -5,10 +5,12 @@
 //   h_sizes <out.ndjson>
 #include <cstdio>
 #include <cstdlib>
+#include <cstring>
 #include <new>
 #include <string>
 #include <vector>
 #include "mp/expr.h"
+#include "mp/problem.h"
 #include "mp/safeint.h"
 
 static size_t g_max = 0;
@@ -37,7 +39,7 @@ template <class F> static void probe(const char *kind, long n, F f) {
   catch (...) { res = "other"; }
   g_track = false;
   // the factory allocates `new char*[bytes]`: the request is 8 * (intended bytes); report intended bytes / 8
-  size_t words = g_max / 8 / 8;
+  size_t words = (!strncmp(kind, "add", 3)) ? g_max / 8 : g_max / 8 / 8;
   if (words > 2000000000UL) words = 2000000000UL;
   fprintf(out, "{\"e\":\"Size\",\"kind\":\"%s\",\"n\":%ld,\"res\":\"%s\",\"req8\":%zu}\n", kind, n, res, words);
   fflush(out);
@@ -61,6 +63,18 @@ int main(int argc, char **argv) {
     { mp::ExprFactory f; probe("itlogical", n, [&] { f.BeginIteratedLogical(mp::expr::EXISTS, k); }); }
     { mp::ExprFactory f; probe("pairwise", n, [&] { f.BeginPairwise(mp::expr::ALLDIFF, k); }); }
     { mp::ExprFactory f; probe("plterm", n, [&] { f.BeginPLTerm(k); }); }
+  }
+  // ---- mp::Problem: a block of n items added to a problem that already has 3 (old + n has to fit an int)
+  for (long n : {1L, 2L, 100L, 65536L, 1L << 24, 1L << 27, (1L << 28) + 1, 1L << 30, 2147483644L, 2147483645L, 2147483646L, 2147483647L}) {
+    int k = (int)n;
+    { mp::Problem p; p.AddVars(3, mp::var::CONTINUOUS); probe("addvars", n, [&] { p.AddVars(k, mp::var::INTEGER); }); }
+    { mp::Problem p; p.AddVars(3, mp::var::CONTINUOUS); p.AddCommonExprs(3); probe("addcexprs", n, [&] { p.AddCommonExprs(k); }); }
+    if (n <= 100 || n >= 2147483644L) {        // the array form reads n bounds: small blocks, and the ones that cannot fit
+      std::vector<double> lb(n <= 100 ? n : 1, 0.0), ub(n <= 100 ? n : 1, 1.0);
+      std::vector<mp::var::Type> ty(n <= 100 ? n : 1, mp::var::CONTINUOUS);
+      mp::Problem p; p.AddVars(3, mp::var::CONTINUOUS);
+      probe("addvarsarr", n, [&] { p.AddVars(k, lb.data(), ub.data(), ty.data()); });
+    }
   }
   fclose(out);
   return 0;
